@@ -320,7 +320,7 @@ func (m *c15Machine) Next(t *rapid.T) c15Op {
 			rightful = d.owner
 		}
 		return c15Op{Kind: "edit", Denom: di, MT: m.drawMT(t, d), Who: m.drawWho(t, rightful),
-			Data: rapid.SampledFrom([]string{"", "e1", "e2", c15Sentinel}).Draw(t, "data")}
+			Data: rapid.SampledFrom([]string{"", "e1", "e2", c15Sentinel}).Draw(t, "data"), Pad: rapid.IntRange(0, 9).Draw(t, "pad") == 0}
 	case k < 78: // transfer
 		di := m.drawDenom(t)
 		d, _ := m.denomAt(di)
@@ -336,6 +336,7 @@ func (m *c15Machine) Next(t *rapid.T) c15Op {
 			supply = tk.supply
 		}
 		op.Amount = c15Amount(t, c15Bal(tk, m.addr(who)), supply, true)
+		op.Pad = rapid.IntRange(0, 9).Draw(t, "pad") == 0
 		return op
 	case k < 92: // burn
 		di := m.drawDenom(t)
@@ -350,7 +351,8 @@ func (m *c15Machine) Next(t *rapid.T) c15Op {
 		if tk != nil {
 			supply = tk.supply
 		}
-		return c15Op{Kind: "burn", Denom: di, MT: mi, Who: who, Amount: c15Amount(t, c15Bal(tk, m.addr(who)), supply, true)}
+		return c15Op{Kind: "burn", Denom: di, MT: mi, Who: who, Amount: c15Amount(t, c15Bal(tk, m.addr(who)), supply, true),
+			Pad: rapid.IntRange(0, 9).Draw(t, "pad") == 0}
 	default: // class hand-over
 		di := m.drawDenom(t)
 		d, _ := m.denomAt(di)
@@ -629,6 +631,22 @@ func (m *c15Machine) Apply(op c15Op) error {
 		return fmt.Errorf("unknown op kind %q", op.Kind)
 	}
 
+	if op.Pad && tk != nil {
+		// blanks around the token id (validation lets them through, the mint handler trims them): whether the other
+		// handlers find the token under that spelling is not the property's business - but an accepted operation acts on
+		// the token it names, and the ledger follows it
+		switch x := msg.(type) {
+		case *mttypes.MsgEditMT:
+			x.Id, valid = " "+x.Id+" ", false
+		case *mttypes.MsgTransferMT:
+			x.Id, valid = " "+x.Id+" ", false
+		case *mttypes.MsgBurnMT:
+			x.Id, valid = " "+x.Id+" ", false
+		}
+		if !valid {
+			m.cnt["padded-id-outside-mint"]++
+		}
+	}
 	if !valid { // a refusal of malformed input says nothing about the rules of the property
 		m.nOverflow, m.nUnderflow, m.nStranger = c0, c1, c2
 	}
